@@ -372,6 +372,25 @@ func u64(x uint64) []byte {
 var BKeys = [][]byte{K(""), K("a"), K("a\x00"), K("\xff")}
 var CounterKey = K("cnt")
 
+// AlphabetFor: rocksdb refuses a delete-range whose end sorts before its start (InvalidArgument) and,
+// the failed write having reached the memtable stage, refuses every later write of that DB object too;
+// the callers of the engine never build such a range (rockredis derives both ends from one key), so for
+// rocksdb the inverted ranges are left out of the alphabet (observation recorded in DESIGN.md C20).
+func AlphabetFor(spec EngSpec) []Op {
+	all := Alphabet()
+	if spec.Name != "rocksdb" {
+		return all
+	}
+	var out []Op
+	for _, o := range all {
+		if o.Kind == "delrange" && bytes.Compare(o.K, o.V) > 0 {
+			continue
+		}
+		out = append(out, o)
+	}
+	return out
+}
+
 func Alphabet() []Op {
 	var ops []Op
 	for _, k := range BKeys {
@@ -438,7 +457,7 @@ func PartB(spec EngSpec, col *ev.Collector, depth int, dl ev.Deadline) (st Stats
 	for _, d := range Decoys {
 		base[string(d)] = []byte("decoy")
 	}
-	ops := Alphabet()
+	ops := AlphabetFor(spec)
 	seen := map[string]bool{refKey(base): true}
 	frontier := []Ref{base}
 	reached = []Ref{base}
@@ -519,7 +538,7 @@ func PartB(spec EngSpec, col *ev.Collector, depth int, dl ev.Deadline) (st Stats
 func PartC(spec EngSpec, col *ev.Collector, starts []Ref, dl ev.Deadline) (st Stats, complete bool) {
 	eng, dir := Open(spec)
 	defer func() { CloseEng(eng, dir) }()
-	ops := Alphabet()
+	ops := AlphabetFor(spec)
 	for _, from := range starts {
 		// a fresh engine per start state: range tombstones piling up in one memtable make
 		// pebble iterators slower and slower (cost only, not a verdict)
